@@ -461,7 +461,7 @@ class TranscriptRank(Contract):
         e.assume(st.n >= 0)
         zz = lambda i: i if is_z3(i) else z3.IntVal(i)
         st.keys = FnView(st.n, lambda i: SymObj('TxKey06b', i=zz(i)), tag='transcript ids of the annotation')
-        st.anno = SymObj('GenomicAnnotation', transcripts=st.keys)
+        st.anno = SymObj('GenomicAnnotation', transcripts=st.keys, genes=st.keys)
         st.args = [st.anno]
         self._cur = st
         return st
@@ -500,6 +500,12 @@ class TranscriptRank(Contract):
 
     def post_return(self, I, st, ret):
         I.e.prove('C06/rank/the-filled-table-is-returned', z3.BoolVal(isinstance(ret, _RankDict)))
+
+
+@register
+class GenesRank(TranscriptRank):
+    """GenomicAnnotation.get_genes_rank(): as get_transcript_rank, over the genes of the annotation (the order in which the parsers write their records)"""
+    qualname = 'GenomicAnnotation.get_genes_rank'
 
 
 from pyvc.native import NativeCheck
